@@ -38,6 +38,7 @@ def spaced(ex, it, name, maxspaces):
     segs = [KStr.fresh(f"{name}_seg{i}") for i in range(n + 1)]
     for s in segs:
         it.sepfree.setdefault(" ", []).append(s.t)
+        it.sepfree.setdefault("\n", []).append(s.t)   # stated precondition: a path or link target holds no line end (the format is line based)
     out = segs[0]
     for s in segs[1:]:
         out = out + " " + s
@@ -61,6 +62,7 @@ def t_roundtrip(ex):
                     # a hex digest: non-empty, no spaces; int(.,16) inverts it (assumed)
                     theory._add_axiom(("hex", t.get_id()), z3.And(unhex(t) == v.t, z3.Length(t) > 0))
                     it_.sepfree.setdefault(" ", []).append(z3.simplify(t))
+                    it_.sepfree.setdefault("\n", []).append(z3.simplify(t))
                     return SStr(t)
                 return Model(l2s, "md5.long2str")
             raise OutOfSubset(name)
@@ -96,6 +98,7 @@ def t_roundtrip(ex):
     from pyvc.sym import str_of_int
     mt_text = z3.simplify(z3.IntToStr(mtime.t))   # str(int(mtime)): digits, no space (mtime >= 0)
     it.sepfree.setdefault(" ", []).append(mt_text)
+    it.sepfree.setdefault("\n", []).append(mt_text)
     it.digit_terms = [mt_text]
     ex.assume(SBool(z3.StrToInt(mt_text) == mtime.t))
     target, tsegs = (spaced(ex, it, "target", 2) if kind == "sym" else (None, []))
@@ -117,27 +120,13 @@ def t_roundtrip(ex):
     if len(written) != 2:
         return
     line = written[0]
-    # the reader sees the line without its newline (readlines strips it)
+    # the channel (trusted; the enumeration runs it for real through a file and a data source): iterating the source yields each written
+    # line as written, line end included -- whatever the reader removes, it removes itself
     ok_nl = isinstance(line, SStr) and ex.must(line.endswith("\n"))
     ex.oblige(f"{P}.{kind}.write.line_ends_with_newline", bool(ok_nl))
     if not ok_nl:
         return
-    # strip the newline structurally (the reader's readlines does) so that the line stays a concatenation
-    t = z3.simplify(line.t)
-
-    def flat(x):
-        if x.decl().kind() == z3.Z3_OP_SEQ_CONCAT:
-            for i in range(x.num_args()):
-                yield from flat(x.arg(i))
-        else:
-            yield x
-    args = list(flat(t))
-    if z3.is_string_value(args[-1]) and args[-1].as_string().endswith("\n"):
-        tail = args[-1].as_string()[:-1]
-        args = args[:-1] + ([z3.StringVal(tail)] if tail else [])
-        lines.append(SStr(z3.Concat(*args) if len(args) > 1 else args[0]))
-    else:
-        lines.append(line.slice(None, -1))
+    lines.append(line)
     r = call(it, it.target(FILE, "ContentsFile._iter_contents"), me)
     ex.oblige(f"{P}.{kind}.read.raises.nothing", not r.raised, kind="exceptional-postcondition")
     if r.raised:
@@ -195,19 +184,24 @@ def enum_contents(seed):
     targets = ["t", "a b", "c ", " d", "x -> y", "../up dir/f ", "vt\x0bx", "nel\x85 y", "ls\u2028x"]
     cases, fails = 0, []
     with tempfile.TemporaryDirectory(dir="/var/tmp") as d:
-        for i, nm in enumerate(names):
+        from snakeoil import data_source as _ds
+        # every kind of entry gets the awkward name itself (so a name that ends in a blank ends its line), through both kinds of source
+        # the class accepts: a path and a data source
+        for i, (nm, via) in enumerate((nm, via) for nm in names for via in ("path", "data_source")):
+            tails = (".lnk", ".d", ".fifo") if i % 3 else (" l", " d ", "\tf\t")
             ents = [fs.fsFile(nm, chksums={"md5": 0xabc + i, "size": 1}, mtime=1000 + i, data=data_source(b"x"), strict=False),
-                    fs.fsSymlink(nm + ".lnk", target=targets[i % len(targets)], mtime=5 + i, strict=False),
-                    fs.fsDir(nm + ".d", strict=False), fs.fsFifo(nm + ".fifo", strict=False)]
+                    fs.fsSymlink(nm + tails[0], target=targets[i % len(targets)], mtime=5 + i, strict=False),
+                    fs.fsDir(nm + tails[1], strict=False), fs.fsFifo(nm + tails[2], strict=False)]
             p = os.path.join(d, f"CONTENTS{i}")
             open(p, "w").close()
+            src = p if via == "path" else _ds.data_source("", mutable=True)
             cases += 1
             try:
-                cf = ContentsFile(p, mutable=True)
+                cf = ContentsFile(src, mutable=True, create=via != "path")
                 for e in ents:
                     cf.add(e)
                 cf.flush()
-                back = {e.location: e for e in ContentsFile(p)}
+                back = {e.location: e for e in ContentsFile(src)}
             except Exception as ex_:
                 if len(fails) < 4:
                     fails.append({"model": {"location": nm, "kind": "set of 4 entries", "target": targets[i % len(targets)]},
@@ -225,8 +219,8 @@ def enum_contents(seed):
                 elif e.is_sym and (b.target != e.target or int(b.mtime) != int(e.mtime)):
                     bad = f"{e.location!r}: target {e.target!r} came back as {b.target!r}"
                 if bad and len(fails) < 4:
-                    fails.append({"model": {"location": e.location, "kind": type(e).__name__, "target": getattr(e, "target", None)}, "detail": bad})
-    return {"name": "C24.codec.bounded_enumeration", "bound": f"{len(names)} awkward paths (spaces incl. leading/trailing/double, '->' fragments, unicode, tabs, the 8 characters at which only str.splitlines() breaks a line) x 4 entry kinds through a real file",
+                    fails.append({"model": {"location": e.location, "kind": type(e).__name__, "target": getattr(e, "target", None), "source": via}, "detail": f"[{via} source] " + bad})
+    return {"name": "C24.codec.bounded_enumeration", "bound": f"{len(names)} awkward paths (spaces incl. leading/trailing/double, '->' fragments, unicode, tabs, the 8 characters at which only str.splitlines() breaks a line) x 4 entry kinds (names ending in blanks / tabs included) through a real file and through a data source",
             "cases": cases, "failures": fails}
 
 
